@@ -18,6 +18,12 @@ func init() {
 
 func propC04(c *Ctx) {
 	l := c.L
+	defer func() {
+		rfr := c.Rule("full-read", "every direct Read on an io.Reader in the decoder uses the byte count returned (a reader may deliver the stream in pieces)", 1)
+		ruleFullRead(c, rfr)
+		rsa := c.Rule("scalar-accept", "the integer scalar decoders reject, on the ground of the decoded value, only values outside the range of the Go type the encoder writes", 3)
+		ruleScalarAccept(c, rsa)
+	}()
 	p := l.ByPath[encPath]
 	rt := c.Rule("tag-agree", "for every codec type the set of type-tag constants its MarshalBinary writes equals the set its UnmarshalBinary accepts, and the arm of DecodeObject selected by a tag constructs a codec type whose UnmarshalBinary accepts exactly that tag", 20)
 	if !c.Anchor(rt, "package encoder", p != nil) {
